@@ -55,6 +55,43 @@ def _enum_names(path, enum):
     return names
 
 
+FW_SETS = ("nb_sched_set", "nb_sched_set_ul", "neigh_pm_sched_set", "tch_sched_set", "tch_a_sched_set", "tch_d_sched_set")
+
+
+def fw_sets_text(p):
+    """the six TDMA sched sets mframe_sched.c refers to, from the TEXT of their definitions in layer1/prim_*.c: the same sequence of
+    items / SCHED_END_FRAME() / SCHED_END_SET() with every callback replaced by c11_nop (fails closed on anything else)"""
+    d = os.path.join(p["fw"], "layer1")
+    src = {}
+    for f in sorted(os.listdir(d)):
+        if f.startswith("prim_") and f.endswith(".c"):
+            with open(os.path.join(d, f)) as fh:
+                src[f] = _strip_comments(fh.read())
+    out = []
+    for name in FW_SETS:
+        hits = [(f, m) for f, t in src.items()
+                for m in re.finditer(r"^\s*(?:static\s+)?const\s+struct\s+tdma_sched_item\s+%s\s*\[\s*\]\s*=\s*\{(.*?)\}\s*;" % re.escape(name), t, re.S | re.M)]
+        if len(hits) != 1:
+            raise RuntimeError("TDMA sched set %s: %d definitions found in layer1/prim_*.c" % (name, len(hits)))
+        body = hits[0][1].group(1)
+        toks = re.findall(r"(SCHED_[A-Z_]+)\s*\(([^()]*)\)", body)
+        rest = re.sub(r"SCHED_[A-Z_]+\s*\([^()]*\)", "", body)
+        if rest.replace(",", "").strip() or not toks or toks[-1][0] != "SCHED_END_SET":
+            raise RuntimeError("TDMA sched set %s in %s has an unexpected shape" % (name, hits[0][0]))
+        items = []
+        for k, (mac, args) in enumerate(toks):
+            if mac in ("SCHED_ITEM", "SCHED_ITEM_DT") and k < len(toks) - 1:
+                items.append("SCHED_ITEM(c11_nop, 0, 0, 0)")
+            elif mac == "SCHED_END_FRAME" and k < len(toks) - 1:
+                items.append("SCHED_END_FRAME()")
+            elif mac == "SCHED_END_SET" and k == len(toks) - 1:
+                items.append("SCHED_END_SET()")
+            else:
+                raise RuntimeError("TDMA sched set %s: unexpected %s at position %d" % (name, mac, k))
+        out.append("const struct tdma_sched_item %s[] = { %s };\n" % (name, ", ".join(items)))
+    return "".join(out)
+
+
 def write_incs():
     """name lists taken from the text of the real sources; every VALUE is then read through the compiler"""
     p = _paths()
@@ -62,6 +99,7 @@ def write_incs():
     os.makedirs(d, exist_ok=True)
     tasks = _enum_names(p["fw_h"], "mframe_task")
     common.write_if_changed(os.path.join(d, "c11_fw_names.inc"), "".join("T(%s)\n" % t for t in tasks))
+    common.write_if_changed(os.path.join(d, "c11_fw_sets.inc"), fw_sets_text(p))
     lch = [n for n in _enum_names(p["trx_h"], "l1sched_lchan_type") if not n.startswith("_")]
     with open(p["trx_c"]) as f:
         src = _strip_comments(f.read())
@@ -135,7 +173,7 @@ def dump_fw(bins):
     rc, out, err = _run([bins["c11_fw_dump"]])
     if rc != 0 or not out.rstrip().endswith("END"):
         raise RuntimeError("c11_fw_dump failed rc=%d\n%s" % (rc, err[-2000:]))
-    fw = dict(const={}, tasks={}, sets={}, chnr={})
+    fw = dict(const={}, tasks={}, sets={}, chnr={}, frames={})
     for line in out.splitlines():
         w = line.split()
         if w[0] == "CONST":
@@ -148,6 +186,10 @@ def dump_fw(bins):
             fw["sets"][int(w[1])].append(tuple(int(x) for x in w[3:7]))
         elif w[0] == "CHNR":
             fw["chnr"][int(w[1])] = [int(x) for x in w[2:]]
+        elif w[0] == "SETFRAMES":
+            fw["frames"][int(w[1])] = int(w[2])
+    if sorted(fw["frames"]) != list(range(6)):
+        raise RuntimeError("c11_fw_dump: SETFRAMES lines missing")
     return fw
 
 
@@ -192,6 +234,9 @@ def gen_fw_text(fw):
                           "(real sched_set_for_task[], mframe_task2chan_nr(), SCHEDULE_AHEAD/LATENCY as compiled)")
     for k in ("SCHEDULE_AHEAD", "SCHEDULE_LATENCY", "GSM_MAX_FN", "MF_F_SACCH", "MF_F_PTCCH", "NTASKS"):
         t += "Definition fw_%s : Z := %d.\n" % (k, fw["const"][k])
+    t += ("\n(* what tdma_schedule_set() returns for the sched set of kind 0..5 (NB_DL, NB_UL, PM, TCH, TCH_A, TCH_D) when no bucket overflows:\n"
+          "   the number of SCHED_END_FRAME() entries of the definition in layer1/prim_*.c, counted as tdma_sched.c counts them *)\n")
+    t += "Definition fw_set_frames : list Z := " + common.zlist([fw["frames"][k] for k in range(6)]) + ".\n"
     t += "\n(* enum mframe_task as compiled *)\n"
     for name, v in sorted(fw["tasks"].items(), key=lambda kv: kv[1]):
         t += "Definition fw_%s : Z := %d.\n" % (name, v)
